@@ -415,7 +415,8 @@ func c11Long(w *mon.W, idx int) {
 func c11HugeString(w *mon.W, _ int) {
 	r := w.Rng
 	for _, n := range []int{1<<28 - 1, 1 << 28, 1<<28 + 3} {
-		buf := make([]byte, n)
+		buf, release := hugeZeroBytes(n)
+		defer release()
 		for i := 0; i < 1024; i++ {
 			buf[i] = r.Byte()
 			buf[n-1-i] = r.Byte()
